@@ -85,6 +85,9 @@ type Options struct {
 	// AolGenesis, when set, is installed as the aol section of the genesis and the AOL model
 	// is derived from it (owners of any legal address length, reachable only through genesis).
 	AolGenesis json.RawMessage
+	// DidGenesis, when set, is installed as the did section of the genesis; the DID model is
+	// derived from it (entries are keyed by the genesis map key, whatever the document says).
+	DidGenesis json.RawMessage
 	// Also enables the state-agreement oracles of other properties (used by C08/C09/C10/C19,
 	// whose statements quantify over "every AOL, DID and PNFT query").
 	Also map[string]bool
@@ -125,6 +128,7 @@ type World struct {
 	ProbeDenoms []string
 	// block bookkeeping for crash/re-deliver and the twin
 	checkDirty bool
+	genOpts    simnet.GenesisOptions
 	blk        *BlockRec
 	// Blocks lists every committed block of the current chain.
 	Blocks     []*BlockRec
@@ -162,16 +166,20 @@ func New(opt Options) (*World, error) {
 		db = d
 	}
 	g := simnet.GenesisOptions{Accounts: accts, Previous: opt.Previous}
-	if opt.Mutate != nil || opt.AolGenesis != nil {
+	if opt.Mutate != nil || opt.AolGenesis != nil || opt.DidGenesis != nil {
 		g.Mutate = func(_ func(interface{}) []byte, gs map[string]json.RawMessage) {
 			if opt.AolGenesis != nil {
 				gs["aol"] = opt.AolGenesis
+			}
+			if opt.DidGenesis != nil {
+				gs["did"] = opt.DidGenesis
 			}
 			if opt.Mutate != nil {
 				opt.Mutate(gs)
 			}
 		}
 	}
+	genOpts := g
 	c, err := simnet.NewChain(db, opt.Dir, g)
 	if err != nil {
 		return nil, err
@@ -180,7 +188,7 @@ func New(opt Options) (*World, error) {
 		dir := opt.Dir
 		c.ReopenDB = func() (dbm.DB, error) { return dbm.NewGoLevelDB("app", dir) }
 	}
-	w := &World{Opt: opt, C: c, Accts: accts, ProbeDenoms: opt.ProbeDenoms,
+	w := &World{Opt: opt, C: c, Accts: accts, ProbeDenoms: opt.ProbeDenoms, genOpts: genOpts,
 		AOL: NewAolModel(), DID: NewDidModel(), PNFT: NewPnftModel(), Authz: map[string]bool{},
 		Labels: map[string]int{}, Excluded: map[string]int{}, Obs: map[string]int{}, Keys: DIDKeys()}
 	w.pendDT = 5
@@ -189,6 +197,12 @@ func New(opt Options) (*World, error) {
 			return nil, err
 		}
 		w.Label("aol genesis with generated owners")
+	}
+	if opt.DidGenesis != nil {
+		if err := w.DID.LoadGenesis(c.App.AppCodec(), opt.DidGenesis); err != nil {
+			return nil, err
+		}
+		w.Label("did genesis with generated entries")
 	}
 	w.snap()
 	if opt.Twin {
@@ -738,6 +752,9 @@ func (w *World) WriteReplay(path string, extra map[string]interface{}) error {
 	doc := map[string]interface{}{"property": w.Opt.Prop, "kind": "history", "steps": w.History}
 	if w.Opt.AolGenesis != nil {
 		doc["aol_genesis"] = w.Opt.AolGenesis
+	}
+	if w.Opt.DidGenesis != nil {
+		doc["did_genesis"] = w.Opt.DidGenesis
 	}
 	for k, v := range extra {
 		doc[k] = v
